@@ -534,8 +534,18 @@ TRIPS = {
 def _written_width(m, offset_name):
   total = nf.rat(E('0'))
   for st in U.walk_stmts(m.node):
+    inc = None
     if isinstance(st, ast.AugAssign) and isinstance(st.op, ast.Add) and norm_text(st.target) == offset_name:
-      w = nf.rat(st.value)
+      inc = nf.rat(st.value)
+    elif isinstance(st, ast.Assign) and len(st.targets) == 1 and norm_text(st.targets[0]) == offset_name and offset_name in U.names_in(st.value):
+      try:
+        inc = nf.rat(st.value) - nf.rat(E(offset_name))      # offset = offset + e
+        if offset_name in inc.atoms():
+          inc = None
+      except nf.NFError:
+        inc = None
+    if inc is not None:
+      w = inc
       for lp in U.enclosing_loops(m.node, st):
         trip = TRIPS.get(norm_text(lp.iter).replace(' ', '').replace('enumerate(', 'enumerate(')) or TRIPS.get(norm_text(lp.iter))
         if trip is None:
